@@ -120,7 +120,13 @@ pub(crate) fn expect_metric(parser: &mut Parser, recovery: TokenSet) -> bool {
 /// a number value has the syntax $ident or ${expr}
 fn eat_metric(parser: &mut Parser, recovery: TokenSet) -> bool {
     // a simple numerical metric
-    if parser.eat(Kind::Number) {
+    if parser.matches(0, Kind::Number) {
+        // metrics are 16-bit values; later stages parse them without checking again
+        if parser.current_token_text().parse::<i16>().is_err() {
+            parser.err_and_bump("metric value must be in the range -32768..=32767");
+        } else {
+            parser.eat(Kind::Number);
+        }
         return true;
     // else we expect a variable metric; return if we dont' find a paren
     } else if parser.matches(0, Kind::Dollar) {
